@@ -3,6 +3,7 @@ import ScenicModel.Gen.IntCodec
 import ScenicModel.Props.C18Replay
 import ScenicModel.Props.C18Sample
 import ScenicModel.Props.C18Stream
+import ScenicModel.Gen.StreamCfg
 
 /-!
 # C18 — property theorems, instantiated on the data regenerated from /repo
@@ -59,5 +60,98 @@ theorem sample_truncation_refused (c : Sample.Ctx) (ht : c.t = intTable) (hD : S
     (hw : Sample.writeSample c vals roots = some enc) (p q : Bytes) (hpq : enc = p ++ q)
     (hq : q ≠ []) : Sample.readSample c roots p = none :=
   Sample.sample_truncation_refused c (ht ▸ gen_table_wf) hD vals hCons roots hroots enc hw p q hpq hq
+
+/-! ### stream / scene layer on the constants regenerated from `serialization.py` / `simulators.py`
+(`Gen/StreamCfg.lean`, translator `tools/translate/streamcfg.py`) -/
+
+/-- side condition: the extracted format versions fit their fields, `checkDivergence` is bit 1, and the
+    field widths written and read by the source are the ones the model hard-codes (2+4+4 / 2+4) -/
+theorem gen_stream_wf : streamFmt.WF ∧ sceneVersion < 256 ^ 2 ∧
+    sceneWriteWidths = [2, 4, 4] ∧ sceneReadWidths = [2, 4, 4] ∧
+    replayWriteWidths = [2, 4] ∧ replayReadWidths = [2, 4] := by decide
+
+/-- side condition: the statement shapes the model assumes are the ones of the source: header fields are
+    length-checked before they are unpacked, another version is refused, both hashes are compared under
+    `verify`; the replaying run takes its divergence flag from the replay header, and the recording run
+    sets that flag exactly when it writes divergence data -/
+theorem gen_stream_checked : sceneHeaderChecked = true ∧ replayHeaderChecked = true ∧
+    flagFromHeader = true ∧ flagIffDivergenceData = true := by decide
+
+open Scenic.ReplayStream in
+/-- replay header of the current source: every 32-bit flags word round-trips -/
+theorem replay_header_roundtrip (f : Nat) (hf : f < 256 ^ 4) (s : Bytes) :
+    readHeader streamFmt.replayVersion (writeHeader streamFmt.replayVersion f ++ s) = some (f, s) :=
+  ReplayStream.header_roundtrip _ f gen_stream_wf.1.1 hf s
+
+open Scenic.ReplayStream in
+/-- a replay written by any other format version is refused by the current source's version -/
+theorem replay_header_refuses_other_version (v f : Nat) (hv : v < 256 ^ 2)
+    (hne : v ≠ streamFmt.replayVersion) (s : Bytes) :
+    readHeader streamFmt.replayVersion (writeHeader v f ++ s) = none :=
+  ReplayStream.header_refuses_version v _ f hv hne s
+
+open Scenic.ReplayStream in
+/-- `simulate(replay = getReplay() of a recording run)` reproduces the drawn values, with the integer
+    codec, replay format version and flag bit of the current source -/
+theorem simulate_replay_reproduces (c : Cfg) (ht : c.t = intTable)
+    (hrefl : ∀ ty v, c.diverged ty v v = false)
+    (fresh fresh' : Nat → Sample.Val) (hT : Typed c fresh) (wd ca : Bool) (n : Nat) (stR : St)
+    (hrec : simulate c streamFmt true wd false none fresh n = .ok stR) :
+    ∃ st', simulate c streamFmt false false ca (some stR.out) fresh' n = .ok st' ∧
+      st'.hist = stR.hist :=
+  ReplayStream.simulate_replay_reproduces c (ht ▸ gen_table_wf) hrefl streamFmt gen_stream_wf.1
+    fresh fresh' hT wd ca n stR hrec
+
+open Scenic.ReplayStream in
+example : simulate ReplayStream.exCfg streamFmt true true false none ReplayStream.exFresh 10
+    = simulate ReplayStream.exCfg ReplayStream.exFmt true true false none ReplayStream.exFresh 10 := rfl
+
+/-- scene round trip with the scene format version and integer codec of the current source -/
+theorem scene_roundtrip (c : Sample.Ctx) (ht : c.t = intTable) (hD : Sample.DAG c.g)
+    (h : Sample.Header) (hver : h.version = sceneVersion) (vals : Nat → Sample.Val)
+    (hCons : Sample.Consistent c vals) (roots : List Nat) (hroots : ∀ r ∈ roots, r < c.g.length)
+    (enc : Bytes) (hw : Sample.writeScene c h vals roots = some enc)
+    (ha : h.astHash.length = 4) (ho : h.optHash.length = 4) (s : Bytes) :
+    ∃ env, Sample.readScene c h roots (enc ++ s) = some (env, s) ∧
+      (∀ r ∈ roots, Sample.lookupD c env r = vals r) :=
+  Sample.scene_roundtrip c (ht ▸ gen_table_wf) hD h vals hCons roots hroots enc hw
+    (hver ▸ gen_stream_wf.2.1) ha ho s
+
+/-- **new**: every input shorter than the 10-byte scene header is refused by `readScene(verify=True)`,
+    although only the version field is length-checked: a short hash field cannot equal a 4-byte hash.
+    (For every scenario, graph and root list.) -/
+theorem scene_header_truncation_refused (c : Sample.Ctx) (h : Sample.Header) (roots : List Nat)
+    (p : Bytes) (ha : h.astHash.length = 4) (ho : h.optHash.length = 4) (hp : p.length < 10) :
+    Sample.readScene c h roots p = none := by
+  unfold Sample.readScene
+  cases h2 : readExact 2 p with
+  | none => rfl
+  | some r =>
+    obtain ⟨a, s1⟩ := r
+    obtain ⟨hs, hal⟩ := readExact_eq_some h2
+    have hl : p.length = 2 + s1.length := by rw [hs, List.length_append, hal]
+    simp only
+    split
+    · rfl
+    · split
+      · rfl
+      · rename_i _ hA
+        split
+        · rfl
+        · rename_i hO
+          exfalso
+          have hA' : (s1.take 4).length = 4 := by
+            have : s1.take 4 = h.astHash := Classical.not_not.mp hA
+            rw [this, ha]
+          have hO' : ((s1.drop 4).take 4).length = 4 := by
+            have : (s1.drop 4).take 4 = h.optHash := Classical.not_not.mp hO
+            rw [this, ho]
+          simp only [List.length_take, List.length_drop] at hA' hO'
+          omega
+
+/-- the hypotheses are satisfiable and the statement is not vacuous: a 9-byte prefix of a valid header -/
+example : Sample.readScene ⟨intTable, [], fun _ _ => .none, fun _ => .none⟩
+    ⟨sceneVersion, [1, 2, 3, 4], [5, 6, 7, 8]⟩ [] [3, 0, 1, 2, 3, 4, 5, 6, 7] = none :=
+  scene_header_truncation_refused _ _ _ _ rfl rfl (by decide)
 
 end Scenic.C18
